@@ -3,6 +3,7 @@ Model.LaxSem; correspondence on random op sequences.  Pool half: slot accounting
 import json
 import random
 from vlib import core
+from props import poolcommon as pc
 from vlib.core import cz, clist, cbool
 
 MANIFEST = dict(
@@ -78,11 +79,14 @@ def correspond_sem(res, n):
 
 
 def run(res):
-    res.proof_step('Props/C10.v', extra_targets=['Model/LaxSem.vo'], kernels_needed=['K_laxsem'])
+    res.proof_step('Props/C10.v', extra_targets=['Model/LaxSem.vo', 'Model/Pool.vo'], kernels_needed=['K_laxsem'])
     n = 400 if res.tier == 'quick' else 20000
     if res.broken:
         n = max(n, 5000)
     correspond_sem(res, n)
+    # pool half: slot accounting of the whole pool against the proved pool model
+    pc.pool_check(res, 'C10', 100 if res.tier == 'quick' else 4000, focus={'apply': 14, 'ready': 12, 'ack': 10, 'exit': 6, 'tick': 10, 'grow': 3, 'shrink': 3, 'close': 0.6, 'feed': 5},
+                  cfg=lambda rng: dict(pc.random_cfg(rng), putlocks=True))
     res.assumptions += [
         'threading.Semaphore / Condition (stdlib) are modelled: a blocking acquire with value 0 is "Blocked"',
         '`with self._cond:` sections are atomic',
